@@ -21,7 +21,9 @@ RULE = ('cases = monitored well-formed chart with logging probes, send (with del
         'equal to the reference log truncated right after meta-event k; (3b) a property chart '
         'with a time-out (the J-th meta-event named X arms a delayed self-event of delay D; no '
         'eventless transitions) must fail exactly at the first meta-event whose step time has '
-        'reached the due time, or never; (4) never-final property '
+        'reached the due time, or never; (5) when the listener and the recording property chart '
+        'are detached and replaced by fresh ones between two steps, the old ones hear nothing '
+        'more and the new ones every meta-event from then on; (4) never-final property '
         'charts leave the run signature equal to the unmonitored run; in 40% of the cases the '
         'monitored chart runs with contracts on and carries state invariants / transition post-'
         'conditions and invariants that record sent(x)/received(x), and those records belong to '
@@ -60,7 +62,7 @@ def strategy(tier):
                       'transitions': [t['id'] for t in spec['transitions']
                                       if draw(st.floats(0, 1)) < 0.4]}
         return {'spec': spec, 'ops': ops, 'ks': ks, 'order': order, 'sprobe': sprobe,
-                'deadline': deadline}
+                'deadline': deadline, 'swap': draw(st.floats(0, 0.999))}
     return cases()
 
 
@@ -135,7 +137,8 @@ def add_sprobes(spec, sprobe):
     return spec
 
 
-def run(spec, ops, monitor, k=None, order='recorder-first', contracts=False, deadline=None):
+def run(spec, ops, monitor, k=None, order='recorder-first', contracts=False, deadline=None,
+        swap_at=None):
     """monitor: None (unmonitored) | 'record' | 'final'.  Returns dict."""
     from sismic.interpreter import Interpreter
     from sismic.exceptions import PropertyStatechartError
@@ -145,16 +148,21 @@ def run(spec, ops, monitor, k=None, order='recorder-first', contracts=False, dea
               ctx_extra={'tick': lambda dt: box['d'].advance(dt), 'slog': slog})
     box['d'] = d
     heard, plog = [], []
+    heard2, plog2 = [], []
+    handles = {}
     if monitor:
         def listener(ev):
             heard.append((ev.name, norm_data(ev.data), len(d.ctx['log'])))
         d.interp.attach(listener)
 
-        def bind_rec():
-            d.interp.bind_property_statechart(
+        def listener2(ev):
+            heard2.append((ev.name, norm_data(ev.data), len(d.ctx['log'])))
+
+        def bind_rec(into=plog):
+            handles['rec'] = d.interp.bind_property_statechart(
                 recorder_chart(),
                 interpreter_klass=lambda sc, clock: Interpreter(
-                    sc, clock=clock, initial_context={'plog': plog}))
+                    sc, clock=clock, initial_context={'plog': into}))
 
         def bind_final():
             d.interp.bind_property_statechart(
@@ -182,6 +190,13 @@ def run(spec, ops, monitor, k=None, order='recorder-first', contracts=False, dea
     sig, marks = [], []
     raised = None
     for op in ops:
+        if op[0] == 'step' and swap_at is not None and len(sig) == swap_at:
+            # between two steps: the plain listener and the recording property chart are detached
+            # and replaced by fresh ones (same number of listeners before and after)
+            d.interp.detach(listener)
+            d.interp.attach(listener2)
+            d.interp.detach(handles['rec'])
+            bind_rec(plog2)
         if op[0] == 'q':
             d.queue(op[1], delay=op[2], mode=op[3], uid=op[4])
         elif op[0] == 'adv':
@@ -198,6 +213,7 @@ def run(spec, ops, monitor, k=None, order='recorder-first', contracts=False, dea
                 raised = rec
                 break
     return {'sig': sig, 'heard': heard, 'plog': plog, 'marks': marks, 'raised': raised,
+            'heard2': heard2, 'plog2': plog2,
             'log': [list(x) for x in d.ctx['log']], 'drive': d}
 
 
@@ -321,6 +337,32 @@ def oracle(case):
     for i, (h0, h1, p0, p1) in enumerate(ref['marks']):
         for j in range(p0, p1):
             step_of[j] = i
+    # (5) listeners replaced between two steps: the old ones hear nothing more, the new ones
+    # everything from then on
+    if case.get('swap') is not None and len(ref['marks']) >= 2:
+        j = 1 + int(case['swap'] * (len(ref['marks']) - 1))
+        j = min(j, len(ref['marks']) - 1)
+        h_j, _, p_j, _ = ref['marks'][j]
+        sw = run(spec, case['ops'], 'record', contracts=contracts, swap_at=j)
+        labels['listener replacements'] = 1
+        det = {'replaced_before_step': j}
+        for name, got, want in (('old listener', sw['heard'], ref['heard'][:h_j]),
+                                ('new listener', sw['heard2'], ref['heard'][h_j:]),
+                                ('old property chart', sw['plog'], ref['plog'][:p_j]),
+                                ('new property chart', sw['plog2'], ref['plog'][p_j:])):
+            got = [list(x[:2]) for x in got]
+            want = [list(x[:2]) for x in want]
+            if name.endswith('chart'):
+                got = [[x[0]] for x in got]
+                want = [[x[0]] for x in want]
+            if got != want:
+                det.update({'who': name, 'n_heard': len(got), 'n_expected': len(want),
+                            'first_heard': got[:3], 'first_expected': want[:3]})
+                viol.append({'prop': PROP, 'kind': 'replaced-listener-meta-events', 'step': j,
+                             'detail': det})
+                break
+        if viol:
+            return {'violations': viol, 'labels': labels, 'keys': keys}
     # (3b) a property chart with a time-out (delayed self-event, no eventless transition): it
     # must fail at the first meta-event whose step time has reached the due time
     if case.get('deadline'):
